@@ -3,6 +3,7 @@ package main
 // E7: primitive effects, reachability over the resolved call graph, who-may-call.
 
 import (
+	"go/types"
 	"go/constant"
 	"sort"
 	"strings"
@@ -249,4 +250,33 @@ func (m *Module) usesOfFunc(target *ssa.Function) []ssa.Instruction {
 		}
 	}
 	return out
+}
+
+// osFlag returns the value of os.O_* for the loaded build configuration.
+func (m *Module) osFlag(name string) int64 {
+	p := m.Prog.ImportedPackage("os")
+	if p == nil {
+		infra("package os not loaded")
+	}
+	c, ok := p.Pkg.Scope().Lookup(name).(*types.Const)
+	if !ok {
+		infra("os.%s not found", name)
+	}
+	n, _ := constant.Int64Val(c.Val())
+	return n
+}
+
+// openFlagsHave: the constant flag argument of an os.OpenFile call includes all named flags.
+func (m *Module) openFlagsHave(c *ssa.CallCommon, names ...string) bool {
+	fl, ok := openFileFlags(c)
+	if !ok {
+		return false
+	}
+	for _, n := range names {
+		v := m.osFlag(n)
+		if v == 0 || fl&v != v {
+			return false
+		}
+	}
+	return true
 }
